@@ -70,6 +70,21 @@ def per_query_tasks(ck):
                         tasks = tasks[2][0]
                     n += 1
                     w = where(fn, node)
+                    wk = x[2][0]
+                    if tasks == queries and wk[0] == "lam" and wk[1] == 1 and wk[2][0] == "app":
+                        # the references are bound into the worker (functools.partial / a closure), the tasks are the queries
+                        a = dict(wk[2][3])
+                        vals = list(a.values())
+                        ck.judge(True, "C10.6", short(fn) + ":tasks:queries", w,
+                                 "one task per query of the list received (no query is left out or depends on its position in a batch)",
+                                 found=T.show(tasks)[:120], required=params[1])
+                        ck.judge(refs in vals, "C10.6", short(fn) + ":tasks:references", w,
+                                 "every query is aligned against the reference list as received: a list derived from the other queries "
+                                 "(e.g. references filtered by the longest query) makes one query's record depend on the rest of the file",
+                                 found=T.show(wk)[:200], required=params[0])
+                        ck.judge(any(v[0] == "bv" for v in vals), "C10.6", short(fn) + ":tasks:query", w,
+                                 "the worker's other argument is that query", found=T.show(wk)[:120])
+                        continue
                     if not (tasks[0] == "comp" and len(tasks[3]) == 1 and tasks[2][0] == "tuple" and len(tasks[2][1]) == 2):
                         cpu_dep = any((y[0] == "attr" and y[2] == "numberOfCpus") or (y[0] == "call" and y[1].endswith("cpu_count"))
                                       for y in T.subterms(tasks))
